@@ -288,7 +288,11 @@ func TestVerifC18(t *testing.T) {
 	for _, n := range ns {
 		for _, b := range all {
 			for _, m := range all {
-				o.line(fmt.Sprintf("nextwait %d %d 0 %d 0", b, m, n), c18nextWait(ExpBackOff{BackOff: time.Duration(b), Max: time.Duration(m)}, n))
+				w := c18nextWait(ExpBackOff{BackOff: time.Duration(b), Max: time.Duration(m)}, n)
+				o.line(fmt.Sprintf("nextwait %d %d 0 %d 0", b, m, n), w)
+				if b >= 1 && m >= 1 { // the property's own wording, judged by the Lean monitor (not by the translation)
+					o.line(fmt.Sprintf("wait-spec %d %d 0 %d %s", b, m, n, w), "accept")
+				}
 			}
 		}
 		for _, b := range vals { // jitter: non-negative base (the feasibility decision is exact there), any max
@@ -296,6 +300,9 @@ func TestVerifC18(t *testing.T) {
 				ebo := ExpBackOff{BackOff: time.Duration(b), Max: time.Duration(m), Jitter: true}
 				for d := 0; d < draws; d++ {
 					w := c18nextWait(ebo, n)
+					if b >= 1 && m >= 1 {
+						o.line(fmt.Sprintf("wait-spec %d %d 1 %d %s", b, m, n, w), "accept")
+					}
 					if w == "panic" {
 						o.line(fmt.Sprintf("nextwait-feasible %d %d %d 0", b, m, n), "panic")
 						break
